@@ -16,6 +16,7 @@ use std::sync::Arc;
 use serde_json::json;
 
 use crate::verif::client::{Client, ClientCfg};
+use crate::verif::driver::Sim;
 use crate::verif::explore::{self, Dev, Scenario};
 use crate::verif::oracle::{self, Reg};
 use crate::verif::props::c03::{self, IndexScenario};
@@ -104,7 +105,41 @@ fn histories<'a>(env: &'a Env, thorough: bool) -> Vec<History<'a>> {
         let (sc, regs) = c04::scenario(env, 3, depth, growth, set);
         v.push(History { name: format!("fork/depth{}/growth{}/set{}", depth, growth, set), sc: Box::new(sc), devs: vec![], regs, final_chain: 1 });
     }
+    // H-fork-while-down: the chain reorganises (within last-N) while the client is down: the crash
+    // may leave a matched-blocks record of the abandoned branch behind, the first proof after
+    // the restart is already the one of the new branch
+    // (filter batches of 6: one record spans the fork point; of 2: records start after it)
+    for (depth, growth, set, batch) in if thorough { vec![(2u64, 4u64, 1usize, 6u64), (2, 4, 1, 2), (1, 3, 1, 2), (2, 5, 3, 2), (1, 5, 0, 3), (2, 4, 1, 1)] } else { vec![(2u64, 4u64, 1usize, 6u64), (2, 4, 1, 2)] } {
+        let (mut sc, regs) = c04::scenario(env, 3, depth, growth, set);
+        sc.switch_while_down = true;
+        sc.filter_batch = batch;
+        v.push(History { name: format!("fork-while-down/depth{}/growth{}/set{}/batch{}", depth, growth, set, batch), sc: Box::new(sc), devs: vec![], regs, final_chain: 1 });
+    }
     v
+}
+
+/// Why a run after a fork switch does not get quiescent: a stored matched-blocks record that
+/// lists a block which is not on the final chain, either starting after the fork point (the
+/// rollback has to remove those) or at / below it (a record spanning the fork point: C04's
+/// recorded finding, the rollback keeps it by design of the repository's reorg tests).
+fn stall_cause(sim: &Sim, final_chain: usize) -> String {
+    if sim.world.chains.len() < 2 {
+        return String::new();
+    }
+    let (a, b) = (&sim.world.chains[0], &sim.world.chains[1]);
+    let fork_at = (0..=a.tip_number().min(b.tip_number())).take_while(|n| a.blocks[*n as usize].hash() == b.blocks[*n as usize].hash()).count() as u64 - 1;
+    let fin = &sim.world.chains[final_chain];
+    let mut cause = String::new();
+    for rec in [sim.c().storage.get_earliest_matched_blocks(), sim.c().storage.get_latest_matched_blocks()].into_iter().flatten() {
+        let (start, _count, hashes) = rec;
+        if hashes.iter().any(|(h, _)| fin.number_of(h).is_none()) {
+            if start > fork_at {
+                return "stale-record-after-the-fork-point".to_owned();
+            }
+            cause = "record-spanning-the-fork-point".to_owned();
+        }
+    }
+    cause
 }
 
 /// First-run initialisation: `Client::open` on an empty directory, crash at every write of
@@ -226,8 +261,11 @@ pub(crate) fn run(opts: &Opts, report: &mut Report) {
                 judged.retain(|(c, _)| !c.starts_with("uncommitted-record/TxHash") && !c.starts_with("uncommitted-record/BlockHash") && !c.starts_with("uncommitted-record/BlockNumber"));
                 bad.extend(judged);
             }
+            let cause = sim.as_ref().map(|s| stall_cause(s, h.final_chain)).unwrap_or_default();
             for (class, items) in oracle::group(bad) {
                 let hist_kind = h.name.split('/').next().unwrap_or("").to_owned();
+                // a run that never gets quiescent is named after what keeps it busy
+                let class = if class == "stall" && !cause.is_empty() { format!("stall({})", cause) } else { class };
                 report.violation(
                     format!("{}/{}", class, hist_kind),
                     format!("[{}] crash at write {} of {} (step {:?}): {}", h.name, k, total, out.crashed_at_step, items[0]),
@@ -290,4 +328,33 @@ pub(crate) fn run(opts: &Opts, report: &mut Report) {
     report.set("rule", json!("one case = (history, k): the history executed on the real client with the process dying at its k-th storage write point, followed by reopen, restart and honest convergence; all k of every history are enumerated; every case is distinct and non-trivial (the crash point is reached)"));
     report.assume("a RocksDB put / delete / write(batch) is atomic and durable once it returned; torn batches and power loss are outside the model");
     report.assume("after a restart the world grows by one empty block so that the peers can be proven again (in the crashed and in the crash-free run alike)");
+}
+
+/// Development aid: C08_HIST=<substring of the history name> C08_K=<write point> [C08_J=<second>]
+/// (VERIF_TRACE=1 for the message trace).
+pub(crate) fn debug_case() {
+    let env = Env::dummy();
+    let want = std::env::var("C08_HIST").unwrap_or_default();
+    let k: u64 = std::env::var("C08_K").ok().and_then(|x| x.parse().ok()).unwrap_or(0);
+    let j: Option<u64> = std::env::var("C08_J").ok().and_then(|x| x.parse().ok());
+    let thorough = std::env::var("C08_THOROUGH").is_ok();
+    for h in histories(&env, thorough) {
+        if !h.name.contains(&want) {
+            continue;
+        }
+        println!("history {}", h.name);
+        let (sim, out) = explore::run_with_crashes(h.sc.as_ref(), &h.devs, Some(k), j, false);
+        for l in &out.run.trace {
+            println!("  {}", l);
+        }
+        println!("crashed at step {:?}, writes {}, converged {}, panic {:?}, reopen panic {:?}", out.crashed_at_step, out.writes, out.run.converged, out.run.panic.as_ref().map(|p| p.describe()), out.reopen_panic.as_ref().map(|p| p.describe()));
+        if let Some(sim) = &sim {
+            println!("bans {:?}", sim.bans());
+            for (c, d) in c03::judge_run(sim, &out.run, &h.regs, &[]) {
+                println!("  {}: {}", c, d);
+            }
+            println!("stored tip #{} min filtered {}", sim.c().tip_number(), sim.c().storage.get_min_filtered_block_number());
+        }
+        break;
+    }
 }
